@@ -198,6 +198,8 @@ class PathExec:
             if is_self_field(a0, "record_defrag_buffer"):
                 h = strip_ref(a1)
                 hv = env.get(h.get("id")) if h.get("k") == "local" else None
+                if not isinstance(hv, str):
+                    hv = None
                 if hv == "pseudo_header(len=buf.len,..record.hdr)":
                     return "buf"
                 return "buf,hdr=%s" % (hv or text(a1))
